@@ -67,4 +67,23 @@ def optJson {β} (f : β → Json) : Option β → Json
   | none => Json.null
   | some b => f b
 
+/-- Generic stateful line loop: one JSON value in, one JSON value out, flushed after every line. -/
+partial def lineLoopAux {σ : Type} (h out : IO.FS.Stream) (handle : σ → Json → σ × Json) (st : σ) : IO Unit := do
+  let line ← h.getLine
+  if line.isEmpty then return ()
+  let (st', resp) :=
+    match Json.parse line with
+    | .ok j => handle st j
+    | .error e => (st, Json.mkObj [("k", "bad-json"), ("why", e)])
+  out.putStrLn resp.compress
+  out.flush
+  lineLoopAux h out handle st'
+
+def lineLoop {σ : Type} (handle : σ → Json → σ × Json) (init : σ) : IO Unit := do
+  lineLoopAux (← IO.getStdin) (← IO.getStdout) handle init
+
+/-- Stateless variant. -/
+def lineMap (f : Json → Json) : IO Unit :=
+  lineLoop (fun (_ : Unit) j => ((), f j)) ()
+
 end Driver
